@@ -74,7 +74,7 @@ def main(tier, seed):
     rep = Report("C08", tier, seed)
     rng = random.Random(seed)
     if standard_build(rep, "C08", need_binary=True):
-        n = 1500 if tier == "quick" else 60000
+        n = 1500 if tier == "quick" else 30000
         texts = []; wants = []; stats = {"commands": 0, "max_hangul": 0, "max_dots": 0, "with_filler": 0}
         for i in range(n):
             cs = rand_cmd_list(rng)
